@@ -1770,6 +1770,340 @@ theorem parse_delimited (S : Schema) (sks : List String) (bs : Bytes)
       exact hspec)
     simpa using this
 
+/-! ### SAM: eleven fixed columns and the rest of the line -/
+
+theorem delimsFrom_append (isD : Nat → Bool) (k : Nat) (a b : Bytes) :
+    delimsFrom isD k (a ++ b) = delimsFrom isD k a ++ delimsFrom isD (k + a.length) b := by
+  induction a generalizing k with
+  | nil => simp [delimsFrom]
+  | cons x xs ih =>
+    simp only [List.cons_append, delimsFrom, List.length_cons]
+    have e : k + 1 + xs.length = k + (xs.length + 1) := by omega
+    split <;> simp [ih (k + 1), e]
+
+theorem delimsFrom_range (isD : Nat → Bool) (k : Nat) (bs : Bytes) :
+    ∀ e ∈ delimsFrom isD k bs, k ≤ e ∧ e < k + bs.length := by
+  induction bs generalizing k with
+  | nil => intro e he; simp [delimsFrom] at he
+  | cons b rest ih =>
+    intro e he
+    simp only [delimsFrom] at he
+    split at he
+    · simp only [List.mem_cons] at he
+      rcases he with rfl | he
+      · simp
+      · have := ih (k + 1) e he; simp; omega
+    · have := ih (k + 1) e he; simp; omega
+
+theorem slice_append_left (A post : Bytes) (s e : Nat) (he : e ≤ A.length) :
+    slice (A ++ post) s e = slice A s e := by
+  simp only [slice]
+  rcases Nat.lt_or_ge A.length s with h | h
+  · have : e - s = 0 := by omega
+    simp [this]
+  · rw [List.drop_append_of_le_length h, List.take_append_of_le_length (by simp; omega)]
+
+theorem slice_split (A : Bytes) (s x e : Nat) (hsx : s ≤ x) (hxe : x < e) (he : e ≤ A.length) :
+    slice A s e = slice A s x ++ A.getD x 0 :: slice A (x + 1) e := by
+  have h1 : slice A s e = slice A s x ++ slice A x e := by
+    simp only [slice]
+    have h3 : e - s = (x - s) + (e - x) := by omega
+    have h4 : s + (x - s) = x := by omega
+    rw [h3, List.take_add, List.drop_drop, h4]
+  have h2 : slice A x e = A.getD x 0 :: slice A (x + 1) e := by
+    simp only [slice]
+    have hx : x < A.length := by omega
+    rw [List.drop_eq_getElem_cons hx]
+    have : e - x = (e - (x + 1)) + 1 := by omega
+    rw [this, List.take_succ_cons]
+    simp [List.getD_eq_getElem?_getD, List.getElem?_eq_getElem hx]
+  rw [h1, h2]
+
+/-- consecutive fields with their separators: the slice from the start of the first to the end of the last
+is the fields joined by the separator -/
+theorem join_consecutive (A : Bytes) (d : Nat) (R : List Nat) (a : Nat) (hR : R ≠ [])
+    (hwf : ∀ p ∈ List.zip (a :: R.map (· + 1)) R, p.1 ≤ p.2)
+    (hlt : ∀ e ∈ R, e < A.length)
+    (hsep : ∀ e ∈ R.dropLast, A.getD e 0 = d) :
+    a ≤ R.getLast?.getD 0 ∧
+    slice A a (R.getLast?.getD 0) = joinWith d ((List.zip (a :: R.map (· + 1)) R).map (fun p => slice A p.1 p.2)) := by
+  induction R generalizing a with
+  | nil => exact absurd rfl hR
+  | cons x rest ih =>
+    cases rest with
+    | nil =>
+      have := hwf (a, x) (by simp)
+      simp [joinWith]
+      exact this
+    | cons y rest' =>
+      have h0 := hwf (a, x) (by simp)
+      have hrec := ih (x + 1) (by simp)
+        (fun p hp => hwf p (by simp only [List.map_cons, List.zip_cons_cons, List.mem_cons] at hp ⊢; exact Or.inr hp))
+        (fun e he => hlt e (by simp only [List.mem_cons] at he ⊢; exact Or.inr he))
+        (fun e he => hsep e (by simp only [List.dropLast_cons_cons, List.mem_cons] at he ⊢; exact Or.inr he))
+      have hlast : (x :: y :: rest').getLast?.getD 0 = (y :: rest').getLast?.getD 0 := by
+        simp [List.getLast?_cons_cons]
+      have hlen : (y :: rest').getLast?.getD 0 < A.length := by
+        have hne : (y :: rest') ≠ [] := by simp
+        rw [List.getLast?_eq_some_getLast hne]
+        simp only [Option.getD_some]
+        exact hlt _ (List.mem_cons_of_mem _ (List.getLast_mem hne))
+      rw [hlast]
+      simp only at h0
+      refine ⟨by omega, ?_⟩
+      rw [slice_split A a x _ h0 (by omega) (by omega), hsep x (by simp), hrec.2]
+      simp [joinWith]
+
+theorem zip_cons_map_split (g : Nat → Nat) (a : Nat) (r1 r2 : List Nat) (hne : r1 ≠ []) :
+    List.zip (a :: (r1 ++ r2).map g) (r1 ++ r2)
+      = List.zip (a :: r1.map g) r1 ++ List.zip (g (r1.getLast hne) :: r2.map g) r2 := by
+  induction r1 generalizing a with
+  | nil => exact absurd rfl hne
+  | cons x xs ih =>
+    cases xs with
+    | nil => simp
+    | cons y ys =>
+      have := ih (g x) (by simp)
+      simp only [List.cons_append, List.map_cons, List.zip_cons_cons] at this ⊢
+      rw [this]
+      simp [List.getLast_cons]
+
+theorem delimsFrom_getD (isD : Nat → Bool) (bs pre post : Bytes) :
+    ∀ e ∈ delimsFrom isD pre.length bs,
+      isD ((pre ++ bs ++ post).getD e 0) = true ∧ (pre ++ bs ++ post).getD e 0 ∈ bs := by
+  induction bs generalizing pre with
+  | nil => intro e he; simp [delimsFrom] at he
+  | cons b rest ih =>
+    intro e he
+    have hpre : pre ++ b :: rest ++ post = (pre ++ [b]) ++ rest ++ post := by simp
+    have hlen : (pre ++ [b]).length = pre.length + 1 := by simp
+    simp only [delimsFrom] at he
+    have hrec : ∀ e ∈ delimsFrom isD (pre.length + 1) rest,
+        isD ((pre ++ b :: rest ++ post).getD e 0) = true ∧ (pre ++ b :: rest ++ post).getD e 0 ∈ b :: rest := by
+      intro e he
+      have := ih (pre ++ [b]) e (by rw [hlen]; exact he)
+      rw [← hpre] at this
+      exact ⟨this.1, List.mem_cons_of_mem _ this.2⟩
+    split at he
+    · rename_i hD
+      simp only [List.mem_cons] at he
+      rcases he with rfl | he
+      · have : (pre ++ b :: rest ++ post).getD pre.length 0 = b := by
+          simp [List.getD_eq_getElem?_getD]
+        rw [this]; exact ⟨hD, by simp⟩
+      · exact hrec e he
+    · exact hrec e he
+
+/-- **sam_extra.** For every SAM line with at least `k` TAB-separated fields (k = 11), wherever it sits in the
+buffer: the first `k` (start, end) pairs denote the first `k` fields, and the rest-of-line pair denotes the remaining
+fields joined by TAB — the empty text when there are exactly `k` fields. -/
+theorem sam_extra (d : Nat) (_hd : d ≠ 10) (pre l post : Bytes) (hl : 10 ∉ l) (k : Nat) (hk1 : 1 ≤ k)
+    (hk : k ≤ (splitOn d l).length) (hnocr : (pre ++ l).getLast? ≠ some 13) :
+    ((samRow (pre ++ (l ++ [10]) ++ post) false k pre.length (delimsFrom (isDelim d) pre.length (l ++ [10]))).1.map
+        (fun p => slice (pre ++ (l ++ [10]) ++ post) p.1 p.2) = (splitOn d l).take k) ∧
+    (let x := (samRow (pre ++ (l ++ [10]) ++ post) false k pre.length (delimsFrom (isDelim d) pre.length (l ++ [10]))).2
+     slice (pre ++ (l ++ [10]) ++ post) x.1 x.2 = joinWith d ((splitOn d l).drop k)) := by
+  obtain ⟨A, hA⟩ : ∃ A, A = pre ++ (l ++ [10]) := ⟨_, rfl⟩
+  obtain ⟨r, hr⟩ : ∃ r, r = delimsFrom (isDelim d) pre.length (l ++ [10]) := ⟨_, rfl⟩
+  rw [← hA, ← hr]
+  have hAlen : A.length = pre.length + l.length + 1 := by rw [hA]; simp; omega
+  have hrlt : ∀ e ∈ r, e < A.length := by
+    intro e he
+    have := delimsFrom_range (isDelim d) pre.length (l ++ [10]) e (hr ▸ he)
+    simp at this; omega
+  -- texts of all fields of the line
+  have hP : (List.zip (pre.length :: r.map (· + 1)) r).map (fun p => slice A p.1 p.2) = splitOn d l := by
+    have hb := bridge_aux (isDelim d) (l ++ [10]) pre pre.length (Nat.le_refl _)
+    rw [← hr, ← hA, slice_self] at hb
+    rw [List.zip, List.map_zipWith]
+    have hps : piecesAcc (isDelim d) [] (l ++ [10]) = splitOn d l := by
+      have := pieces_stretch (isDelim d) d l 10 [] (fun b hb => by
+        have : b ≠ 10 := fun h => hl (h ▸ hb)
+        simp [isDelim, this]) (by simp [isDelim])
+      simpa [pieces, piecesAcc] using this
+    rw [← hps, ← hb]
+  have hrlen : r.length = (splitOn d l).length := by
+    have := congrArg List.length hP
+    simpa using this
+  have hsl : ∀ p ∈ List.zip (pre.length :: r.map (· + 1)) r,
+      slice (A ++ post) p.1 p.2 = slice A p.1 p.2 := by
+    intro p hp
+    exact slice_append_left A post p.1 p.2 (Nat.le_of_lt (hrlt p.2 (List.of_mem_zip hp).2))
+  have hwf := pairs_wf_aux (isDelim d) (l ++ [10]) pre pre.length (Nat.le_refl _)
+  rw [← hr, ← hA] at hwf
+  -- split the delimiters after the k-th
+  have hrk : k ≤ r.length := by omega
+  obtain ⟨r1, r2, hr12, hr1len⟩ : ∃ r1 r2, r = r1 ++ r2 ∧ r1.length = k :=
+    ⟨r.take k, r.drop k, (List.take_append_drop k r).symm, by simp; omega⟩
+  have hr1ne : r1 ≠ [] := by intro h; rw [h] at hr1len; simp at hr1len; omega
+  have hsplit := zip_cons_map_split (· + 1) pre.length r1 r2 hr1ne
+  rw [← hr12] at hsplit
+  have hlen1 : (List.zip (pre.length :: r1.map (· + 1)) r1).length = k := by simp [hr1len]
+  have hrne : r ≠ [] := by intro h; rw [h] at hrk; simp at hrk; omega
+  -- the model's expressions
+  have hstarts : List.zip (pre.length :: r.dropLast.map (· + 1)) (r.dropLast ++ [r.getLast?.getD 0])
+      = List.zip (pre.length :: r.map (· + 1)) r := by
+    have h1 : r.dropLast ++ [r.getLast?.getD 0] = r := by
+      rw [List.getLast?_eq_some_getLast hrne]; exact List.dropLast_concat_getLast hrne
+    rw [h1]
+    have := zipWith_dropLast (fun (a : Nat) (b : Nat) => (a, b)) (· + 1) pre.length r
+    simpa [List.zip] using this
+  have hfields : (samRow (A ++ post) false k pre.length r).1 = List.zip (pre.length :: r1.map (· + 1)) r1 := by
+    simp only [samRow, Bool.false_and, Bool.false_eq_true, if_false]
+    rw [hstarts, hsplit, List.take_left' hlen1]
+  have hP1 : (List.zip (pre.length :: r1.map (· + 1)) r1).map (fun p => slice A p.1 p.2) = (splitOn d l).take k := by
+    rw [← hP, hsplit, List.map_append, List.take_left' (by simp [hr1len])]
+  have hP2 : (List.zip ((r1.getLast hr1ne + 1) :: r2.map (· + 1)) r2).map (fun p => slice A p.1 p.2) = (splitOn d l).drop k := by
+    rw [← hP, hsplit, List.map_append, List.drop_left' (by simp [hr1len])]
+  constructor
+  · rw [hfields, ← hP1]
+    apply List.map_congr_left
+    intro p hp
+    exact hsl p (by rw [hsplit]; exact List.mem_append_left _ hp)
+  · simp only
+    have he : ((samRow (A ++ post) false k pre.length r).1.getLast?.map (·.2)).getD 0 = r1.getLast hr1ne := by
+      rw [hfields]
+      have hz : (List.zip (pre.length :: r1.map (· + 1)) r1).map (·.2) = r1 := by
+        rw [List.zip, List.map_zipWith]
+        have : ∀ (xs : List Nat) (ys : List Nat), xs.length = ys.length + 1 → List.zipWith (fun _ b => b) xs ys = ys := by
+          intro xs ys
+          induction ys generalizing xs with
+          | nil => intro _; simp
+          | cons y ys ih =>
+            intro h
+            cases xs with
+            | nil => simp at h
+            | cons x xs' => simp at h; simp [ih xs' h]
+        exact this _ _ (by simp)
+      rw [← List.getLast?_map, hz, List.getLast?_eq_some_getLast hr1ne]
+      rfl
+    have hx : (samRow (A ++ post) false k pre.length r).2 =
+        (r1.getLast hr1ne + 1, max (r.getLast?.getD 0) (r1.getLast hr1ne + 1)) := by
+      have hrl : r.getLast?.getD 0 = (pre ++ l).length := by
+        rw [hr, delimsFrom_append]
+        simp [delimsFrom, isDelim]
+      have hno13 : (A ++ post).getD (r.getLast?.getD 0 - 1) 0 ≠ 13 := by
+        rw [hrl, hA]
+        have e1 : pre ++ (l ++ [10]) ++ post = (pre ++ l) ++ 10 :: post := by simp
+        rw [e1]
+        cases hpl : (pre ++ l).reverse with
+        | nil =>
+          have : pre ++ l = [] := List.reverse_eq_nil_iff.mp hpl
+          rw [this]; simp
+        | cons z zs =>
+          have hpl' : pre ++ l = zs.reverse ++ [z] := by
+            have := congrArg List.reverse hpl; simpa using this
+          have hz : z ≠ 13 := by
+            intro h13; apply hnocr; rw [hpl', h13]; simp
+          rw [hpl']
+          simp [List.getD_eq_getElem?_getD, hz]
+      have : (samRow (A ++ post) false k pre.length r).2 =
+          (((samRow (A ++ post) false k pre.length r).1.getLast?.map (·.2)).getD 0 + 1,
+           max (r.getLast?.getD 0) (((samRow (A ++ post) false k pre.length r).1.getLast?.map (·.2)).getD 0 + 1)) := by
+        simp only [samRow]
+        rw [if_neg hno13]
+      rw [this, he]
+    rw [hx]
+    simp only
+    cases hr2 : r2 with
+    | nil =>
+      -- exactly k fields: the rest is empty
+      have hr1 : r = r1 := by rw [hr12, hr2]; simp
+      have hlast : r.getLast?.getD 0 = r1.getLast hr1ne := by
+        rw [hr1, List.getLast?_eq_some_getLast hr1ne]; rfl
+      rw [hlast, ← hP2, hr2]
+      simp [slice, joinWith]
+    | cons y ys =>
+      have hr2ne : r2 ≠ [] := by rw [hr2]; simp
+      have hlast : r.getLast?.getD 0 = r2.getLast?.getD 0 := by
+        rw [hr12, List.getLast?_append, List.getLast?_eq_some_getLast hr2ne]
+        simp
+      have hj := join_consecutive A d r2 (r1.getLast hr1ne + 1) hr2ne
+        (fun p hp => (hwf p (by rw [hsplit]; exact List.mem_append_right _ hp)).1)
+        (fun e he => hrlt e (by rw [hr12]; exact List.mem_append_right _ he))
+        (fun e he => by
+          -- a delimiter that is not the last of the line lies inside `l`, so it is the TAB
+          have hmem : e ∈ r.dropLast := by
+            rw [hr12, List.dropLast_append_of_ne_nil hr2ne]
+            exact List.mem_append_right _ he
+          have hrd : r.dropLast = delimsFrom (isDelim d) pre.length l := by
+            rw [hr, delimsFrom_append]
+            simp [delimsFrom, isDelim]
+          rw [hrd] at hmem
+          have := delimsFrom_getD (isDelim d) l pre ([10] ++ post) e hmem
+          have hAe : (pre ++ l ++ ([10] ++ post)).getD e 0 = A.getD e 0 := by
+            have hlt := (delimsFrom_range (isDelim d) pre.length l e hmem).2
+            rw [hA]
+            simp only [List.getD_eq_getElem?_getD]
+            have e1 : pre ++ l ++ ([10] ++ post) = (pre ++ (l ++ [10])) ++ post := by simp
+            rw [e1, List.getElem?_append_left (by simp; omega)]
+          rw [hAe] at this
+          have hne10 : A.getD e 0 ≠ 10 := fun h => hl (h ▸ this.2)
+          have := this.1
+          simp only [isDelim, Bool.or_eq_true, beq_iff_eq] at this
+          rcases this with h | h
+          · exact absurd h hne10
+          · exact h)
+      rw [hlast, Nat.max_eq_left hj.1]
+      rw [slice_append_left A post _ _ (by
+        have : r2.getLast?.getD 0 < A.length := by
+          rw [List.getLast?_eq_some_getLast hr2ne]
+          exact hrlt _ (by rw [hr12]; exact List.mem_append_right _ (List.getLast_mem hr2ne))
+        omega)]
+      rw [hj.2, hP2]
+
+/-! ### VCF INFO lookup and genotype triplets -/
+
+/-- **info_subfields_spec.** Splitting the flat INFO text once at every `;` / row end and regrouping per row gives,
+for every row, exactly `splitOn ';'` of that row's own INFO text. -/
+theorem info_subfields_spec (rows : List Bytes) : infoSubfields rows = rows.map (splitOn 59) := by
+  unfold infoSubfields
+  simp only
+  rw [pieces_texts]
+  have hc : (rows.map (· ++ [59])).map (·.count 59) = (rows.map (splitOn 59)).map List.length := by
+    simp only [List.map_map]
+    apply List.map_congr_left
+    intro r _
+    exact count_sep 59 r
+  rw [hc, unflatten_flatten]
+
+/-- **info_lookup_partial.** The key lookup on a row's items: no item `key=…` → empty text (missing); exactly one
+→ its value, verbatim; the typed reading of that value is `optIntColumn_spec` / `intListColumn_spec` /
+`listColumn_spec`. Gap (corresponded only): how the header declaration selects the type, and the index
+arithmetic that finds the items in the flat buffer (sorted merge, `searchsorted`, `maximum.accumulate`),
+which is modelled at the level of per-row item lists. -/
+theorem info_lookup_partial (name v : Bytes) (pre post : List Bytes)
+    (hpre : ∀ f ∈ pre, isPrefix (name ++ [61]) f = false)
+    (hpost : ∀ f ∈ post, isPrefix (name ++ [61]) f = false) :
+    infoLookup name (pre ++ post) = some [] ∧
+    infoLookup name (pre ++ (name ++ 61 :: v) :: post) = some v := by
+  have h1 : pre.filter (isPrefix (name ++ [61])) = [] := List.filter_eq_nil_iff.mpr (fun f hf => by simp [hpre f hf])
+  have h2 : post.filter (isPrefix (name ++ [61])) = [] := List.filter_eq_nil_iff.mpr (fun f hf => by simp [hpost f hf])
+  have hself : isPrefix (name ++ [61]) (name ++ 61 :: v) = true := by
+    unfold isPrefix
+    have : name ++ 61 :: v = (name ++ [61]) ++ v := by simp
+    rw [this, List.take_left]
+    simp
+  constructor
+  · unfold infoLookup
+    rw [List.filter_append, h1, h2]
+    rfl
+  · unfold infoLookup
+    rw [List.filter_append, h1, List.filter_cons, hself, h2]
+    simp only [if_true, List.nil_append]
+    have : name ++ 61 :: v = (name ++ [61]) ++ v := by simp
+    rw [this]
+    have hl : name.length + 1 = (name ++ [61]).length := by simp
+    rw [hl, List.drop_left]
+
+/-- **genotype_triplets.** For every genotype `a sep b` with alleles 0 1 2 . and separators | / — all 32 —
+decoding the int8 code the reader stores (36·a + 6·sep + b, wrapped) gives the three characters back, and distinct
+genotypes get distinct codes. -/
+theorem genotype_triplets :
+    (gtAlleles.all (fun a => gtSeps.all (fun s => gtAlleles.all (fun b => gtDecode (gtEncode [a, s, b]) == [a, s, b])))) = true ∧
+    ((gtAlleles.flatMap (fun a => gtSeps.flatMap (fun s => gtAlleles.map (fun b => gtEncode [a, s, b])))).Nodup) := by
+  decide +kernel
+
 /-! ### non-vacuity -/
 
 -- "c\t1\t22\nxy\t333\t4\n" : two lines, three fields each
@@ -1796,5 +2130,9 @@ example : specColumnsFrom ((specLines [99,9,49,9,50,50,10,120,121,9,51,51,51,9,5
 example : (∀ l ∈ linesOf [99,9,49,13,10,100,9,50,50,13,10], l.getLast? = some 13) ∧
     specColumnsFrom ((specLines [99,9,49,13,10,100,9,50,50,13,10]).map (splitOn 9)) 0 ["str", "int"]
       = some [Col.strs [[99], [100]], Col.ints [1, 22]] := by decide
+
+-- sam_extra: "a\tb\tc" has 3 ≥ k = 2 fields and no newline
+example : 10 ∉ [97, 9, 98, 9, 99] ∧ 2 ≤ (splitOn 9 [97, 9, 98, 9, 99]).length := by decide
+example : infoLookup [68, 80] [[68, 66], [68, 80, 61, 53], [65, 70, 61, 49]] = some [53] := by decide
 
 end C02
